@@ -224,6 +224,76 @@ fn eval_case(sink: &mut Sink, sess: &Sess, src: &str, sig_prefix: &str, desc: se
     }
 }
 
+/// Long lists: algorithms inside the built-ins switch strategy with length (insertion sort up to 20 elements,
+/// merge runs above; hash tables growing), so every built-in is also applied to lists of 21-300 heterogeneous and
+/// nested elements (mixed scalars, one- and two-element lists of them, records, NaN, null).
+fn long_list(r: &mut Rng) -> crate::rt::RVal {
+    use crate::rt::RVal;
+    let scalars: Vec<RVal> = vec![
+        RVal::Null, RVal::num(f64::NAN), RVal::num(0.0), RVal::num(-0.0), RVal::num(1.0), RVal::num(18.0), RVal::num(30.0), RVal::num(48.0), RVal::num(50.0),
+        RVal::num(-3.0), RVal::num(0.5), RVal::num(f64::INFINITY), RVal::Str("a".into()), RVal::Str("b".into()), RVal::Str("".into()), RVal::Bool(true), RVal::Bool(false),
+    ];
+    let len = *r.pick(&[21usize, 24, 33, 50, 64, 100, 300]);
+    let mode = r.below(6);
+    // a sub-pool keeps incomparable pairs frequent
+    let k = 2 + r.below(5);
+    let sub: Vec<RVal> = (0..k).map(|_| r.pick(&scalars).clone()).collect();
+    let items = (0..len)
+        .map(|_| {
+            let s = r.pick(&sub).clone();
+            let wrap = match mode {
+                0 => 0,
+                1 => 1,
+                2 => 2,
+                3 => 3,
+                _ => r.below(5),
+            };
+            match wrap {
+                0 => s,
+                1 => RVal::List(vec![s]),
+                2 => RVal::List(vec![r.pick(&sub).clone(), s]),
+                3 => RVal::Rec(vec![("k".to_string(), s)]),
+                _ => RVal::List(vec![RVal::List(vec![s])]),
+            }
+        })
+        .collect();
+    RVal::List(items)
+}
+
+fn part_long_lists(ctx: &Ctx, sink: &mut Sink, j: &mut Journal) {
+    let sess = Sess::new();
+    let all = BuiltInFunction::all();
+    let nlists = ctx.budget(48, 600);
+    let mut calls = 0u64;
+    for li in 0..nlists {
+        if !ctx.mine(li) {
+            continue;
+        }
+        let mut r = Rng::derive(ctx.seed, "c01-long-list", li);
+        let l = long_list(&mut r);
+        sess.bind("LL", mk_value(&sess.heap, &l));
+        let shown: String = l.show().chars().take(400).collect();
+        for b in all.iter() {
+            let fname = b.name();
+            if fname == "print" {
+                continue;
+            }
+            for (fi, form) in ["{}(LL)", "{}(LL, x => x)", "{}(LL, x => typeof(x))", "{}(LL, 3)", "{}(...LL)", "LL via {}", "{}(LL, (a, b) => a)"].iter().enumerate() {
+                let src = form.replace("{}", fname);
+                if !j.next(&format!("{} with LL = {}", src, shown)) {
+                    continue;
+                }
+                let desc = json!({"call": src, "LL": shown, "length": match &l { crate::rt::RVal::List(v) => v.len(), _ => 0 }});
+                let mut past = false;
+                eval_case(sink, &sess, &src, &format!("builtin={} long-list form={}", fname, fi), desc, &mut past);
+                sink.case(&format!("longlist|{}|{}|{}", li, fname, fi), past);
+                calls += 1;
+            }
+        }
+    }
+    sink.count("long_list_builtin_calls", calls);
+}
+
 fn part_builtins(ctx: &Ctx, sink: &mut Sink, j: &mut Journal) {
     let pool = gens::boundary_pool();
     let sess = Sess::new();
@@ -867,6 +937,9 @@ pub fn run(ctx: &Ctx, sink: &mut Sink) {
     let part = ctx.opt("part").unwrap_or("all").to_string();
     if part == "all" || part == "builtins" {
         part_builtins(ctx, sink, &mut j);
+    }
+    if part == "all" || part == "longlists" {
+        part_long_lists(ctx, sink, &mut j);
     }
     if part == "all" || part == "operators" {
         part_operators(ctx, sink, &mut j);
